@@ -28,7 +28,9 @@ RULE = ("one run = a drawn expression over + - * / max min consumption productio
         "(stream, T) value is valid or corrupted (None/NaN/+inf/-inf, zero for divisors); non-trivial = at least one "
         "corrupted value delivered; distinct = abstract digest of (corruption kind, stream) sequence"
         " Also: per-stream UTC offsets; for inputs near the float limit the finiteness of the result is decided by"
-        " evaluating the expression in IEEE doubles.")
+        " evaluating the expression in IEEE doubles."
+        " Also: divisors of 4e-10; composed builders built twice under one name with the other nones_are_zeros"
+        " (25%).")
 QUICK_RUNS = 5000
 THOROUGH_RUNS = 300_000
 EXPECT_PROBES = ["staggered_starts", "overflow_to_none", "missing_in_max_min_rhs", "missing_in_max_min_lhs", "division_by_zero", "missing_as_zero",
